@@ -53,6 +53,24 @@ theorem jc_le_one_of_nodup (Y X : List Nat) (h : Y.length = X.length) (hd : Y.No
     jc Y X x c ≤ 1 :=
   le_trans (jc_le_count_left Y X h x c) (List.nodup_iff_count_le_one.mp hd c)
 
+/-- a vector of pairwise distinct values determines every other vector: `H(X | Y) = 0` -/
+theorem condEntropy_nodup_right (X Y : List Nat) (h : X.length = Y.length) (hd : Y.Nodup) : condEntropy X Y = 0 := by
+  have h1 : ∀ y c, jc X Y y c ≤ 1 := fun y c =>
+    le_trans (jc_le_count X Y h y c) (List.nodup_iff_count_le_one.mp hd y)
+  rw [condEntropy_of_le_one X Y h h1]
+  have hz : ∀ y ∈ Y.toFinset, ((Y.count y : ℝ) / Y.length) *
+      ((Y.count y : ℝ) * ((1 / (Y.count y : ℝ)) * Real.log (1 / (Y.count y : ℝ)))) = 0 := by
+    intro y hy
+    have hc : Y.count y = 1 := List.count_eq_one_of_mem hd (List.mem_toFinset.mp hy)
+    simp [hc]
+  rw [Finset.sum_eq_zero hz, neg_zero]
+
+/-- the closed form used for the wide-stratum cases of the C01 check: against an all-distinct vector the plug-in MI is the
+entropy of the other vector -/
+theorem miPlugin_nodup_left (Y X : List Nat) (h : Y.length = X.length) (hn : 0 < X.length) (hd : Y.Nodup) :
+    miPlugin Y X = entropy X := by
+  rw [miPlugin_symm Y X h, miPlugin_eq_sub X Y h.symm (h ▸ hn), condEntropy_nodup_right X Y h.symm hd, sub_zero]
+
 theorem zip_ystar_nodup (Y X : List Nat) (h : Y.length = X.length) (hd : Y.Nodup) :
     (List.zip (ystar Y X) X).Nodup := by
   unfold ystar
